@@ -28,7 +28,9 @@ func checkC07(c *Ctx) {
 		return
 	}
 	// a lock of the topic store left held blocks every later SUBSCRIBE/UNSUBSCRIBE of every client
-	lockBalance(c, func(cl string) bool { return strings.HasPrefix(cl, "topics.") || strings.HasPrefix(cl, "sessions.Session.") }, "topic-store/session")
+	lockBalance(c, func(cl string) bool {
+		return strings.HasPrefix(cl, "topics.") || strings.HasPrefix(cl, "sessions.Session.")
+	}, "topic-store/session")
 
 	g := c.handlerGraph()
 	treeSub := ev{"tree Subscribe", mMethod(pkgTopics, "Manager", "Subscribe")}
@@ -365,7 +367,9 @@ func elementOfParallel(v ssa.Value, l *ir.Loop, m func(*ssa.Call) bool) bool {
 
 // unsubscribeLoop: P4 for UNSUBSCRIBE.
 func (c *Ctx) unsubscribeLoop(fn *ssa.Function) {
-	l := loopOver(fn, func(call *ssa.Call) bool { return ir.IsMethod(call.Common(), pkgMessage, "UnsubscribeMessage", "Topics") })
+	l := loopOver(fn, func(call *ssa.Call) bool {
+		return ir.IsMethod(call.Common(), pkgMessage, "UnsubscribeMessage", "Topics")
+	})
 	pos := c.P.Pos(fn.Pos())
 	if l == nil {
 		c.R.Bad(ruleP4, "UNSUBSCRIBE-loop:ranges-over-request-filters", pos, "the UNSUBSCRIBE handler has no loop over msg.Topics(): not every listed filter is removed")
